@@ -20,7 +20,8 @@ ROOT = os.path.dirname(os.path.dirname(os.path.abspath(__file__)))
 LEAN_FILE = os.path.join(ROOT, "lemmas", "C03.lean")
 MATHLIB = "/opt/veriftools/mathlib4"
 THEOREMS = ["num_append", "num_subst", "pw_coprime", "detect_subst", "num_swap", "detect_adjacent_swap",
-            "ten_pow_sub_one", "pw_is_pow", "detect_wrap_swap", "iban_subst", "iban_swap_adjacent", "iban_swap_seam"]
+            "ten_pow_sub_one", "pw_is_pow", "detect_wrap_swap", "iban_subst", "iban_swap_adjacent", "iban_swap_seam",
+            "rearr_bban", "rearr_head1", "rearr_head2", "iban_subst_at", "iban_swap_at", "iban_swap_at_seam"]
 ALLOWED_AXIOMS = {"propext", "Classical.choice", "Quot.sound"}
 
 
@@ -130,9 +131,9 @@ def main(seed, tier):
         assumptions=c01.ASSUMPTIONS + [
             "A9 the Python spec function Num (contracts/common.py) and the Lean definition `num` denote the same "
             "function: both three-line folds; cross-evaluated on generated vectors inside the Lean run",
-            "the position map from an IBAN mutation to the (p, x, s, h) decomposition of the rearranged list is the "
-            "list identity documented in lemmas/C03.lean (not machine-checked); the rearrangement itself "
-            "(bban + cc + dd) is taken from the real code by the link obligation",
+            "the position-level theorems iban_subst_at / iban_swap_at / iban_swap_at_seam are stated over the IBAN text "
+            "itself with rearr l = l.drop 4 ++ l.take 4 (machine-checked position map); that the code checks exactly "
+            "num(rearr text) is the link obligation 'accepted => Num(bban + cc + dd) mod 97 = 1' taken from the real code",
             "Lean 4.33 kernel + Mathlib; axioms allowed: propext, Classical.choice, Quot.sound (checked by #print axioms)"],
         extra_cov=dict(lean_seconds=round(secs, 1), lean_theorems=THEOREMS,
                        by_backend_lean=len([o for o in lean_obls if o["status"] == "discharged"]),
